@@ -59,6 +59,12 @@ func initReaders() {
 	readers[2].mk = use("1byte")
 	readers[3].mk = use("bufio16")
 	readers = append(readers, rdr{"bufio-fresh", func(x []byte, _ *rand.Rand) io.Reader { return bufio.NewReader(bytes.NewReader(x)) }})
+	// larger caller-supplied bufio.Readers: Parse works directly on them, so the
+	// buffer size it meets is the caller's
+	for _, size := range []int{4097, 8192} {
+		size := size
+		readers = append(readers, rdr{fmt.Sprintf("bufio%d", size), func(x []byte, _ *rand.Rand) io.Reader { return bufio.NewReaderSize(bytes.NewReader(x), size) }})
+	}
 	for _, n := range []string{"whole+eof", "1byte+eof", "halves", "7", "bufio65536", "bufio16over1byte", "random", "random+eof"} {
 		readers = append(readers, rdr{n, use(n)})
 	}
